@@ -285,7 +285,8 @@ def lowerRef (decls : List Decl) : Nat → List (String × IR) → Defs → Stri
                 else match lowerMembers decls n (params.zip xs) d0 members none with
                   | .ok r d1 =>
                     if ext.isEmpty then .ok r d1
-                    else match lowerList decls n stack d1 ext with
+                    -- the heritage clause is read in the scope of the interface's own parameters too (fix D115)
+                    else match lowerList decls n (params.zip xs) d1 ext with
                       | .ok es d2 =>
                         let merged := allOf' (es ++ [r])
                         (match extractObject d2 50 merged with
